@@ -241,6 +241,15 @@ pub fn judge(h: &History, recs: &[StepRec]) -> Result<u32, Failure> {
             // windows
             let rx2_default;
             let rx2 = if rxs.len() >= 2 { rxs[1] } else { rx2_default = None::<Rf>; let _ = &rx2_default; rxs[0] };
+            // RX2 is opened after every uplink whose RX1 window ended without a frame the device acts upon (see the
+            // async branch below)
+            {
+                let rx1_ended_it = r.deliveries.iter().any(|d| d.slot == Slot::Rx1 && !matches!(d.verdict, Verdict::Reject(_)));
+                let faulted = matches!(&r.step, Step::Send { rx, .. } | Step::Join(rx) if rx.fault_at.is_some()) || !matches!(&r.outcome, Outcome::Resp(s) if s == "RxComplete" || s == "NoAck" || s == "NoJoinAccept");
+                if rxs.len() < 2 && !rx1_ended_it && !faulted {
+                    return Err(fail("no-rx2".into(), format!("RX1 ended without an accepted frame but no second receive window was requested (RxRequests after the uplink: {})", rxs.len())));
+                }
+            }
             if rxs.len() >= 2 {
                 match check_windows(reg, &snap_inforce, &tx.rf, rxs[0], rx2, join, dl_known.then_some(&dl_map)) {
                     Ok(n) => nt += n as u32,
@@ -266,6 +275,16 @@ pub fn judge(h: &History, recs: &[StepRec]) -> Result<u32, Failure> {
             let ats: Vec<u64> = after.iter().filter_map(|e| if let Ev::TimerAt(t) = e { Some(*t) } else { None }).collect();
             if singles.is_empty() {
                 return Err(fail("no-rx1".into(), "no receive window was opened after the uplink".into()));
+            }
+            // RX2 is opened after every uplink whose RX1 window ended without a frame the device acts upon
+            // (nothing heard, or a frame that is not accepted): its own receive set-up, even when its
+            // parameters coincide with those of RX1. Judged when the device itself reports the end of the
+            // whole receive procedure (RxComplete / NoAck / NoJoinAccept) in a fault-free transaction
+            // without an oversize frame in RX1 (which may end the procedure early).
+            let rx1_ended_it = r.deliveries.iter().any(|d| d.slot == Slot::Rx1 && !matches!(d.verdict, Verdict::Reject(_)));
+            let faulted = matches!(&r.step, Step::Send { rx, .. } | Step::Join(rx) if rx.fault_at.is_some()) || !matches!(&r.outcome, Outcome::Resp(s) if s == "RxComplete" || s == "NoAck" || s == "NoJoinAccept");
+            if singles.len() < 2 && !rx1_ended_it && !faulted {
+                return Err(fail("no-rx2".into(), format!("RX1 ended without an accepted frame but no second receive window was set up (single-shot receive set-ups after the uplink: {})", singles.len())));
             }
             if singles.len() >= 2 {
                 match check_windows(reg, &snap_inforce, &tx.rf, singles[0].0, singles[1].0, join, dl_known.then_some(&dl_map)) {
@@ -365,7 +384,7 @@ fn run_one(h: &History, st: &mut Stats, class: &str, hook: bool) -> Result<(), F
 
 pub fn run(ctx: &mut Ctx) {
     let thorough = ctx.tier == Tier::Thorough;
-    ctx.rule = "table part (exhaustive): 9 regions x every uplink data rate x every RX1 offset 0..7 (negotiated by JoinAccept DLSettings on OTAA and by RXParamSetupReq on ABP; offsets above the regional maximum are rejected and then irrelevant) x RX2 data-rate/frequency overrides x RxDelay 0..15 x board timings {0,10,50,200 ms} and nb receive-window durations {100..300, 999, 1000, 1001, 1500, 2500 ms} x nb/async/async+ClassC, each followed by uplinks whose windows are judged; in every reached state the hook enumerates the channel selector for all first-draw values 0..71 (join and data frames), so all 72 fixed-plan channels and every dynamic channel incl. DlChannelReq mappings are covered; plus proptest random histories. Oracle: refregion RX1 table / RX2 defaults / downlink frequency pairing, timing arithmetic. Non-trivial: offset != 0 or non-default RX2/delay/DL mapping or fixed-plan join on a 500 kHz channel".into();
+    ctx.rule = "table part (exhaustive): 9 regions x every uplink data rate x every RX1 offset 0..7 (negotiated by JoinAccept DLSettings on OTAA and by RXParamSetupReq on ABP; offsets above the regional maximum are rejected and then irrelevant) x RX2 data-rate/frequency overrides x RxDelay 0..15 x board timings {0,10,50,200 ms} and nb receive-window durations {100..300, 999, 1000, 1001, 1500, 2500 ms} x nb/async/async+ClassC, each followed by uplinks whose windows are judged; in every reached state the hook enumerates the channel selector for all first-draw values 0..71 (join and data frames), so all 72 fixed-plan channels and every dynamic channel incl. DlChannelReq mappings are covered; plus proptest random histories. Oracle: refregion RX1 table / RX2 defaults / downlink frequency pairing, timing arithmetic; a transaction that the device itself reports as run to the end of RX2 (RxComplete / NoAck / NoJoinAccept, no fault, no oversize frame in RX1) must have set up a second receive window of its own, also when its parameters coincide with those of RX1 (`no-rx2`). Non-trivial: offset != 0 or non-default RX2/delay/DL mapping or fixed-plan join on a 500 kHz channel".into();
     ctx.exhaustive = true;
     ctx.assumptions = vec![
         "parameters in force = the network's view: RX1 offset, RX2 overrides and RX1 delay start from the device snapshot at the first data uplink after activation/join (C11 judges the join) and from then on change only through RXParamSetupReq/RXTimingSetupReq that the device acknowledged completely (tracked from its answers with the reference codec); downlink-frequency pairings likewise from acknowledged DlChannelReq/NewChannelReq; after a radio fault, a frame whose size verdict is undefined, or MAC commands accepted outside RX1/RX2 the view is re-read from the device snapshot (or no longer followed)".into(),
